@@ -19,6 +19,7 @@ RULES = {
     "C05.R9": "qfallback dequantizes every QTensor in args and kwargs",
     "C05.R10": "re-quantizing handlers compute on dequantized values and re-quantize with the operand qtype and documented scale",
     "C05.R18": "mutation is local and atomic: (a) a handler that writes a scale in place (copy_) must not meet scale tensors shared between a result and its operand (neg / relu / where / views hand their operand's scale object to the result); (b) it checks that source and destination scales have the same layout before it changes anything; (c) every tensor class intercepts the mutating op copy_ (a class without it copies into a dequantized temporary: a silent no-op)",
+    "C05.R21": "moves are operations: to(dtype) / to(device) / clone / detach of a quantized tensor denote the move of its dequantized values - the payload keeps its storage dtype, a dtype the scale cannot take (integer, 8-bit float) converts the dequantized values (the move rules C06.R2 / C06.R4 re-checked)",
     "C05.R20": "overloads: the dispatch hands every overload of an aten packet to one handler, so a handler of `view` must tell view(dtype) - a reinterpretation of the bytes, meaningless on the codes - from view(size) and fall back",
     "C05.R19": "a handler accepts the optional arguments of the aten ops it is registered for (div: rounding_mode; copy_: non_blocking): as a named parameter or through **kwargs",
     "C05.R17": "integer payload arithmetic does not wrap: neg / abs are applied to a raw int8 payload only after the lowest code (which has no positive counterpart) has been clamped away",
@@ -115,6 +116,10 @@ def run(chk):
         except AnalysisError:
             pass
     c07.linear_forward(AliasedCheck(chk, {"C07.R1": "C05.R14", "C07.R2": "C05.R14", "C07.R6": "C05.R14"}), hn)
+    if chk.pid == "C05":
+        # dtype / device moves are operations too: `q.to(dtype)` is the move of the dequantized values
+        from .c06 import moves_rule
+        moves_rule(chk, r2="C05.R21", r4="C05.R21")
     # in-place variants
     from ..core import paths_of, positional_params as _pp
     n_ip = 0
